@@ -71,6 +71,9 @@ pub struct HistCfg {
     pub bias_compact: bool,
     #[serde(default)]
     pub bias_reopen: bool,
+    /// more bursts of repeated reads (seek-triggered compactions)
+    #[serde(default)]
+    pub bias_seek: bool,
     #[serde(default)]
     pub descriptors: bool,
     #[serde(default)]
@@ -603,6 +606,9 @@ fn gen_op(rng: &mut StdRng, g: &mut GenState, cfg: &HistCfg, cur: &OptSet) -> Op
     }
     if cfg.bias_reopen && rng.gen_bool(0.08) {
         r = 92;
+    }
+    if cfg.bias_seek && rng.gen_bool(0.08) {
+        r = 94;
     }
     if cfg.profile == "local" && rng.gen_bool(0.12) {
         r = 89;
